@@ -55,6 +55,13 @@ def scenarios():
     add("raw-2tok-inside", ("raw", b"x", b"\r\n"), b"a\rb\nc\r\r\nrest")
     add("raw-aws", ("raw", b"config get cluster", AWS_TOKEN),
         b"CONFIG cluster 0 47\r\n1\nh1|10.0.0.1|11211 h2|10.0.0.2|11211\n\r\nEND\r\n")
+    # long reply LINES (a 200-byte key in a VALUE header, a long STAT / VERSION / error line): delivered byte by byte they take many recv() calls
+    lk = b"K" * 200
+    add("get-long-key", ("get", lk.decode()), v(lk, b"xy") + b"END\r\n")
+    add("gets_many-long-keys", ("gets_many", [lk.decode(), (b"L" * 120).decode()]), v(lk, b"1", 0, 7) + v(b"L" * 120, b"", 5, 8) + b"END\r\n")
+    add("stats-long-line", ("stats",), b"STAT version 1.6.21-4.amzn2023.0.1 (ElastiCache build 7, long vendor string)\r\nSTAT pid 1\r\nEND\r\n")
+    add("version-long", ("version",), b"VERSION 1.6.21-4.amzn2023.0.1 (ElastiCache build 7) extra words to make it long\r\n")
+    add("server-error-long", ("set", "k", b"v"), b"SERVER_ERROR out of memory storing object with a long explanation text here\r\n")
     # protocol keywords inside payloads: they are data, wherever a piece happens to start
     words = b"SERVER_ERROR out of memory\r\nCLIENT_ERROR bad\r\nERROR\r\nEND"
     add("raw-error-words", ("raw", b"get lastlog", b"END\r\n"), b"VALUE lastlog 0 %d\r\n" % len(words[:-3]) + words[:-3] + b"END\r\n")
@@ -71,7 +78,7 @@ def scenarios():
     return S
 
 
-JUNK_AFTER_UNIT = {"raw-1", "raw-2tok-inside", "garbage", "error", "client-error", "server-error"}
+JUNK_AFTER_UNIT = {"raw-1", "raw-2tok-inside", "garbage", "error", "client-error", "server-error", "server-error-long"}
 
 
 def call(client, op):
